@@ -137,9 +137,26 @@ class Fn(object):
     return self.world.typer.type_of(expr, self.env)
 
   def name(self, call_or_expr):
-    if isinstance(call_or_expr, ast.Call):
-      return self.aliases.dotted(call_or_expr.func)
-    return self.aliases.dotted(call_or_expr)
+    """Dotted name with local aliases expanded (closures also see the enclosing function's)."""
+    e = call_or_expr.func if isinstance(call_or_expr, ast.Call) else call_or_expr
+    nm = self.aliases.dotted(e)
+    fi = self.fi.parent
+    while nm is not None and fi is not None:
+      head = nm.split(".")[0]
+      if head in self._local_bindings():
+        break
+      nm = self.world.fn_of(fi).aliases.expand(nm)
+      fi = fi.parent
+    return nm
+
+  def _local_bindings(self):
+    if not hasattr(self, "_lb"):
+      lb = set(a.arg for a in self.node.args.args + self.node.args.kwonlyargs)
+      for n in ast.walk(self.node):
+        if isinstance(n, ast.Name) and isinstance(n.ctx, ast.Store):
+          lb.add(n.id)
+      self._lb = lb
+    return self._lb
 
   def calls(self, cfg=None):
     """[(cfg node, Call, expanded dotted name or None)] for every call evaluated at a node."""
